@@ -96,6 +96,12 @@ def main():
             return 2
         vfloat_selftest()
         binding_selftest_epochs()
+        from . import selftest
+        import harness  # noqa: F401
+
+        problems = selftest.run(selftest.CHEAP)
+        if problems:
+            raise core.MachineryError("; ".join(problems))
     except core.MachineryError as ex:
         print(f"setup failed: {ex}", file=sys.stderr)
         return 2
